@@ -12,7 +12,7 @@ func init() {
 		Rule: "kitchen-sink, fixture and rapid-drawn composition packages generated with --client and linked into a driver built with -race; per package rapid-drawn rounds: 16/32/64 goroutines released by a barrier, each issuing 1-3 client calls over mixed operations (typed path/query/header parameters, JSON and raw bodies) through ONE API value and ONE Client, in-process or over a loopback httptest.Server, with 0-3 yielding middlewares appended one at a time, spec handler installed, rapid-drawn Gosched points in the stubs, GOMAXPROCS in {1,2,4,16}, BaseURL with and without a trailing slash; " +
 			"oracle: every request carries a unique tag; the stub looks the planned request up by tag and the parsed parameters must equal exactly what that caller sent (projection to a type-name-free tree), and answers with the response planned for the tag, which the caller must receive (same kind, code, headers, body); the race detector must stay silent (GORACE=halt_on_error=1); " +
 			"non-trivial = round touching >=3 operations (or all of them); distinct by (package, goroutines, calls, GOMAXPROCS, transport, middlewares)",
-		Assume: []string{"the harness does not own the scheduler: a bug needing one specific interleaving can be missed (DESIGN.md §12); the race detector's happens-before analysis covers the accesses that execute", "operations with security requirements are exercised by the other checks only (their request types carry injected credential fields)"},
+		Assume:    []string{"the harness does not own the scheduler: a bug needing one specific interleaving can be missed (DESIGN.md §12); the race detector's happens-before analysis covers the accesses that execute", "operations with security requirements are exercised by the other checks only (their request types carry injected credential fields)"},
 		Main:      c20Main,
 		MinNonTrv: 20,
 	})
